@@ -239,7 +239,7 @@ def build_model():
         if rc != 0:
             return False, out
         shutil.copy(os.path.join(VERIF, "model_driver", "main.ml"), os.path.join(ex, "main.ml"))
-        rc, out2 = sh(["ocamlfind", "ocamlopt", "-w", "-a", "-package", "str", "-linkpkg", "model.mli", "model.ml", "main.ml", "-o", "model_run"], cwd=ex, timeout=600)
+        rc, out2 = sh(["ocamlfind", "ocamlopt", "-w", "-a", "-package", "str,unix", "-linkpkg", "model.mli", "model.ml", "main.ml", "-o", "model_run"], cwd=ex, timeout=600)
         if rc != 0:
             return False, out2
         open(stamp, "w").write(hv)
@@ -356,13 +356,41 @@ def _impl_shard(ctx, cases, si, release):
     return results
 
 
-def run_model(ctx, cases, release=False):
-    cf = os.path.join(ctx.tmp, "model-cases.txt")
-    write_cases(cf, cases)
-    rc, out = sh("ulimit -s unlimited 2>/dev/null; exec %s %s %s" % (model_bin(), cf, "release" if release else "debug"), timeout=1800)
-    res, _ = parse_results(out)
-    if rc != 0:
-        ctx.notes.append("model_run exited %d: %s" % (rc, out[-200:]))
+def run_model(ctx, cases, release=False, shards=16):
+    """Run cases through the extracted model, sharded over several processes (balanced by input size)."""
+    cases = list(cases)
+    if len(cases) < 32:
+        shards = 1
+    order = sorted(range(len(cases)), key=lambda i: -len(cases[i].data))
+    buckets = [[] for _ in range(shards)]
+    loads = [0] * shards
+    for i in order:
+        k = loads.index(min(loads))
+        buckets[k].append(cases[i])
+        loads[k] += len(cases[i].data) ** 2 // 1000 + 100
+    procs = []
+    for si, b in enumerate(buckets):
+        if not b:
+            continue
+        cf = os.path.join(ctx.tmp, "model-cases-%d.txt" % si)
+        write_cases(cf, b)
+        of = open(os.path.join(ctx.tmp, "model-out-%d.txt" % si), "w")
+        p = subprocess.Popen("ulimit -s unlimited 2>/dev/null; ulimit -v 6000000 2>/dev/null; exec %s %s %s" % (model_bin(), cf, "release" if release else "debug"),
+                             shell=True, stdout=of, stderr=subprocess.STDOUT, env=ENV)
+        procs.append((p, of, si))
+    res = {}
+    for p, of, si in procs:
+        try:
+            rc = p.wait(timeout=900)
+        except subprocess.TimeoutExpired:
+            p.kill()
+            rc = 124
+        of.close()
+        out = open(os.path.join(ctx.tmp, "model-out-%d.txt" % si)).read()
+        r, _ = parse_results(out)
+        res.update(r)
+        if rc != 0:
+            ctx.notes.append("model_run shard %d exited %d: %s" % (si, rc, out[-200:]))
     return res
 
 
